@@ -64,6 +64,10 @@
 	; *_dispatched is defaulted to *_mbinit and replaced on first call.
 	; Therefore, *_dispatch_init is only executed on first call.
 	;;;;
+%ifdef ISAL_CRYPTO_VERIF
+	; Verification hook (off by default): let a harness read/re-arm the binding
+	global %1_dispatched, %1_mbinit, %1_dispatch_init
+%endif
 	section .data
 	%1_dispatched:
 		mbin_def_ptr	%1_mbinit
